@@ -350,6 +350,11 @@ class CallMixin:
         return OpaqueV(name)            # exception instances etc.
 
     def mk_chunk(self, s, atts, st):
+        if isinstance(s, Sym) and s.tag == "item":
+            # element of join's iterable used as the text of a run: a str on the paths that established it, else Chunk.__init__ raises
+            if not self.decide(T.ItemS.is_item_str(s.t), st):
+                raise PyRaise("ValueError")
+            s = Sym("str", T.ItemS.istr(s.t))
         if not (isinstance(s, str) or (isinstance(s, Sym) and s.tag == "str")):
             if isinstance(s, (Sym, bytes, int)) or s is None:
                 raise PyRaise("ValueError")     # Chunk.__init__: "unicode string required"
